@@ -434,7 +434,25 @@ func (c *Conn) Close() error {
 	c.closed = true
 	c.out = append(c.out, outEntry{at: time.Now(), fin: true})
 	c.signal()
+	// A socket that is closed while it is not reading (stalled: the peer's data is still queued in
+	// front of it) resets the connection, as TCP does for a close with unread data: the peer's
+	// blocked or later writes fail instead of waiting for a window that will never open.
+	stalled := time.Now().Before(c.stallUntil)
+	peer := c.peer
 	n.mu.Unlock()
+	if stalled && peer != nil {
+		at := time.Now().Add(n.latency("tcprst", c.ID, 0))
+		n.S.At(at, "rst:"+c.ID, func() {
+			n.mu.Lock()
+			if !peer.rst && !peer.closed {
+				peer.rst = true
+				peer.inflight = 0
+				n.stat("tcp.rst_close_while_stalled")
+				peer.signal()
+			}
+			n.mu.Unlock()
+		})
+	}
 	n.S.Ping()
 	return nil
 }
